@@ -22,6 +22,8 @@ func checkC12(c *Ctx) {
 	c.Rule("C12-R8", "the rune parser, which runs before the mouse parsers, removes input only as decoded characters (with an event, or by the decoder's count): an 8-bit CSI (0x9b) it cannot decode stays in the buffer for the mouse parsers")
 	c.Rule("C12-R9", "a mouse report consumes exactly the bytes it matched (both protocols): the next report of a drag starts where this one ended")
 	c.Expect("C12-R9", 2)
+	c.Rule("C12-R11", "the numbers of an SGR report are read as decimal (val*10 + digit) and a leading minus negates the field it belongs to, once, where the field ends")
+	c.Expect("C12-R11", 2)
 	c.Rule("C12-R10", "every mouse report decodes to one event: no complete-return of a mouse parser is reachable without the append (no report is filtered away after decoding: drags carry the motion bit, too)")
 	c.Expect("C12-R10", 2)
 	c.Expect("C12-R8", 2)
@@ -47,6 +49,7 @@ func checkC12(c *Ctx) {
 	}
 	c12Table(c, p)
 	c12Accumulators(c, p, sgr)
+	c12Digits(c, p, sgr)
 	checkChunkOwnership(c, p, "C12-R7")
 	for _, pi := range inputParsers(p) {
 		if pi.fn.Name() == "parseRune" {
@@ -545,4 +548,46 @@ func c12Accumulators(c *Ctx, p *Prog, fn *ssa.Function) {
 		}
 	}
 	c.Check(bad == "" && nTrans >= 2, "C12-R6", fn.Name()+":accumulators-reset-together", p.pos(fn.Pos()), fmt.Sprintf("accumulators %v; %d parameter transitions reset them %s", names, nTrans, bad))
+}
+
+// c12Digits (R11): the numbers of an SGR report are decimal.  In parseSgrMouse the accumulator is
+// val*10 + (byte - '0') under the digit case, and a field is negated exactly where the minus flag is
+// set (val = -val behind a test of that flag) before it is taken.
+func c12Digits(c *Ctx, p *Prog, fn *ssa.Function) {
+	acc, negs := false, 0
+	eachInstr(fn, func(in ssa.Instruction) {
+		bo, ok := in.(*ssa.BinOp)
+		if !ok {
+			return
+		}
+		if bo.Op == token.ADD {
+			if mul, isM := bo.X.(*ssa.BinOp); isM && mul.Op == token.MUL {
+				if k, isK := constInt(mul.Y); isK && k == 10 {
+					if sub, isS := stripConv(bo.Y).(*ssa.BinOp); isS && sub.Op == token.SUB {
+						if k2, isK2 := constInt(sub.Y); isK2 && k2 == '0' {
+							if u, isU := sub.X.(*ssa.UnOp); isU && u.Op == token.MUL {
+								if _, isIA := u.X.(*ssa.IndexAddr); isIA {
+									acc = true
+								}
+							}
+						}
+					}
+				}
+			}
+		}
+	})
+	// negations: UnOp SUB of the accumulator guarded by the minus flag
+	eachInstr(fn, func(in ssa.Instruction) {
+		u, ok := in.(*ssa.UnOp)
+		if !ok || u.Op != token.SUB {
+			return
+		}
+		for _, g := range rawGuardsAt(u.Block()) {
+			if phi, isPhi := g.Cond.(*ssa.Phi); isPhi && g.Positive && phi.Comment == "neg" {
+				negs++
+			}
+		}
+	})
+	c.Check(acc, "C12-R11", "parseSgrMouse:decimal-accumulator", p.pos(fn.Pos()), "val = val*10 + (b[i] - '0')")
+	c.Check(negs >= 2, "C12-R11", "parseSgrMouse:minus-applied-per-field", p.pos(fn.Pos()), fmt.Sprintf("%d negations, each behind the minus flag (at the field separator and at the final byte)", negs))
 }
